@@ -42,6 +42,9 @@ def run(ctx):
     rule_grid(ctx, 'C05.R4')
     rule_methods(ctx, 'C05.R5')
     rule_parabola(ctx, 'C05.R6')
+    # extrema / padding options reach the extrema routine as supplied (defaults only fill in what is missing)
+    from .c06 import rule_no_replacement
+    rule_no_replacement(ctx, 'C05.R7', only={'emd.sift.interp_envelope', 'emd.sift.get_padded_extrema'})
     l1.rule_lib_attrs(ctx, 'L1', [IE], 'envelope')
 
 
